@@ -49,13 +49,12 @@ impl<T> Validator<T> {
     pub fn get_module_and_name(&self) -> (&str, &str) {
         let mut split = self.title.split('.');
 
-        let known_module_name = split
-            .next()
-            .expect("validator's name must have two dot-separated components.");
+        // Titles are `module.validator[.handler]` when the tool-chain wrote them, but a
+        // blueprint is also read back from disk: a title without a dot simply has no
+        // validator part.
+        let known_module_name = split.next().unwrap_or_default();
 
-        let known_validator_name = split
-            .next()
-            .expect("validator's name must have two dot-separated components.");
+        let known_validator_name = split.next().unwrap_or_default();
 
         (known_module_name, known_validator_name)
     }
